@@ -56,7 +56,7 @@ def scenario_of(case):
         case["scenario_seed"],
         xps=("numpy", "numpy", "torch", "jax"), dtypes=(None, None, "float64", "float32"),
         particles=(12, 40) if quick else (12, 96), kernel_steps=(1, 2),
-        checkpoint_modes=("none",), n_final=("none",), rng_routes=("ctor",), offset_prob=0.2,
+        checkpoint_modes=("none",), n_final=("none",), rng_routes=("ctor",), offset_prob=0.2, reuse_prob=0.12,
     )
     return scn
 
@@ -98,6 +98,10 @@ def run_case(case, workdir):
     V += O.check_history(ref, scn, props=("c08",))
     base_key = [scn["_schedule_mode"], scn["target"]["kind"], scn["xp"], scn["dtype"]]
     twins = case.get("twins") or ["checkpoint", "n_final", "choice", "resume"]
+    if scn.get("first_call"):
+        # a sampler object that already served another sample() call is driven directly (no Aspire-level checkpoint plumbing)
+        twins = [t_ for t_ in twins if t_ in ("n_final", "choice")]
+        probes["sampler_object_reused"] = 1
     # (a) checkpointing
     if "checkpoint" in twins:
         for mode in ("callback", "path", "auto"):
